@@ -165,6 +165,17 @@ class Gen:
         regular = r.random() < 0.6
         n = self.length(lo=1)        # (the empty series is exercised by the C01 driver)
         t = self.axis(n, regular=regular)
+        gappy = False
+        if windowed and not regular and n >= 5 and r.random() < 0.5:
+            # a regular cadence interrupted by a few outages: "the sampling step" is unambiguously the cadence
+            # (= the median step), while the mean step is much larger
+            d0 = r.choice([60, 600, 3600])
+            t, cur = [], r.choice([0, 17])
+            gaps = set(r.sample(range(1, n), min((n - 1) // 2 - 1, r.randint(1, 2)))) if (n - 1) // 2 - 1 >= 1 else set()
+            for i in range(n):
+                t.append(cur)
+                cur += d0 * (r.choice([8, 25]) if (i + 1) in gaps else 1)
+            gappy = True
         p = {"st": r.choice(THR[1:]), "ft": r.choice(THR[1:]), "period": NA, "minobs": NA, "minperiod": NA,
              "kind": kind}
         if windowed:
@@ -175,6 +186,10 @@ class Gen:
                 p["minobs"] = r.choice([1, 2, 3, 4])
             elif w < 0.6 and regular and n >= 2:
                 p["minperiod"] = r.choice([d, 2 * d, 3 * d, d + d // 2])
+            elif gappy:
+                p["minobs"] = NA
+                p["minperiod"] = r.choice([d, 2 * d, 3 * d])
+                p["period"] = r.choice([2 * d, 3 * d, 4 * d])
         return mk("att", x=self.series(n, lo=-3, hi=3), t=t, p=p)
 
     def dens(self):
